@@ -34,7 +34,7 @@ CFG = dict(
     imports=["From Verif.Common Require Import Packet PolicyRef Ipt.", "From Verif.C08 Require Import Model.",
              "From Verif.C09 Require Import Model Spec.", "Open Scope string_scope."],
     checker="check_case",
-    n=dict(quick=100, thorough=1200),
+    n=dict(quick=90, thorough=1200),
     shard=15,
     deps=["Common", "C08"],
     rule="2 corpus cases (minimal profile-pass witness, iptables and nftables) + generated endpoints: 0-4 tiers (default action Deny / Pass / unset) x 0-12 policies per tier (GNP, NP, KNP and the three staged "
